@@ -17,7 +17,7 @@ from vlib.core import hexs, unhex, VERIF, CheckError
 from vlib.tr_life import tr_cfglife, tr_resid
 from vlib.tr_wrapper import tr_wrapper, tr_calls
 from vlib.syslevel import call_line, run_many
-from vlib.lifelib import build_both, run_life, phases, addr2line, site_functions, gen_config, coq_query, SINKS, ENVLINE, FILTERS, OUTPUTS
+from vlib.lifelib import build_both, run_life, run_lifemt, phases, addr2line, site_functions, gen_config, coq_query, SINKS, ENVLINE, FILTERS, OUTPUTS
 
 STATE_KEYS = ("fds", "cwd", "umask", "sigmask", "handlers", "env")
 DS_ARGS = {"env": "HOME", "cgroup": "name=systemd", "snoopy_literal": "lit", "datetime": "%Y-%m-%d"}
@@ -75,6 +75,11 @@ def judge(run, lib, r, first_checked, label, ini, fault):
     if r["status"] != 0:
         finds.append(("died", "the calling process ended with status %s under %s: %s" % (r["status"], where, r["stderr"][-300:]), {}))
         return finds, 0
+    for f in r["records"]:
+        if f[0] == "cloexec" and len(f) > 3 and f[3] == "0":
+            finds.append(("fd:inheritable", "the socket the library connects during call %s is not close-on-exec under %s: an exec by another thread or a forked child at that moment inherits it" % (f[1], where),
+                          {"call_index": int(f[1]), "what": "FD_CLOEXEC missing on the library's socket at connect()"}))
+            break
     for (kind, site) in errs:
         finds.append(("heap:" + kind, "%s at %s under %s" % (kind, addr2line(lib, site), where), {"site": addr2line(lib, site)}))
     n = 0
@@ -196,6 +201,16 @@ def check(run):
     base = len(jobs)
     fresults = run_many(job, [(base + i, j) for i, j in enumerate(fjobs)], workers=8)
 
+    # ---- three overlapping calls (thread-safe build): entries of the thread repository are created first / middle / last and leave in every order
+    mt_orders = ["102", "012", "210", "120", "201", "021", "all"]
+    mt_extra = [b"", b"filter_chain = \"only_uid:0;exclude_spawns_of:\"\nmessage_format = \"%{snoopy_threads} %{cmdline} %{username}\"\n"]
+
+    def mt_job(a):
+        i, (order, extra) = a
+        rounds = (4 if order != "all" else 25) if quick else (12 if order != "all" else 300)
+        return (order, extra, rounds, run_lifemt(run, libs["ts"], "c16-%d" % i, rounds, order, extra))
+    mt_results = run_many(mt_job, list(enumerate([(o, e) for o in mt_orders for e in mt_extra])), workers=6)
+
     nsamples, nruns = 0, 0
     distinct = set()
     seen_sig = set()
@@ -216,6 +231,35 @@ def check(run):
             rep = {"variant": v, "config": ini.decode("latin-1"), "fault": fault, "calls": ncalls, "script": script, "label": label,
                    "failing_input": dict({"variant": v, "configuration": ini.decode("latin-1"), "injected_fault": fault, "calls_after_warm_up": ncalls}, **extra)}
             run.violation(full, "spec_violation", detail, rep)
+    nmt = 0
+    for (order, extra, rounds, r) in mt_results:
+        what = "three overlapping calls per round, released in the order %s%s" % ("'%s' (0 = entered first, 1 = middle, 2 = last)" % order if order != "all" else "'all' (together)",
+                                                                                  " with " + extra.decode().replace("\n", " ; ") if extra else "")
+        fi = {"variant": "ts", "threads": 3, "release_order": order, "rounds": rounds, "extra_configuration": extra.decode()}
+        finds = []
+        if r["status"] != 0:
+            finds.append(("threads:died", "the process ended with status %s: %s (%s)" % (r["status"], r["stderr"][-200:], what), {}))
+        for (kind, site) in r["errs"]:
+            finds.append(("threads:heap:" + kind, "%s at %s (%s)" % (kind, addr2line(libs["ts"], site), what), {"site": addr2line(libs["ts"], site)}))
+        base = None
+        for (label, n, al) in r["marks"]:
+            nmt += 1
+            if al["lib"]:
+                site, (cnt, byt) = sorted(al["lib"].items(), key=lambda kv: -kv[1][0])[0]
+                finds.append(("threads:library-block-live", "%d block(s) (%d bytes) allocated at %s are still live after all threads of round %d have returned (%s)"
+                              % (cnt, byt, addr2line(libs["ts"], site), n, what), {"round": n, "site": addr2line(libs["ts"], site)}))
+                break
+            tot = sum(c for o, (c, _) in al["other"].items() if "tool_lifemt" not in o)
+            if label == "round" and n == 1:
+                base = tot
+            elif label == "round" and base is not None and tot > base:
+                finds.append(("threads:growth", "live blocks outside the caller grow from %d after round 1 to %d after round %d (%s)" % (base, tot, n, what), {"round": n}))
+                break
+        for (sig, detail, extra_fi) in finds:
+            full = "residue:%s" % sig
+            if full not in seen_sig:
+                seen_sig.add(full)
+                run.violation(full, "spec_violation", detail, {"variant": "ts", "mt": {"order": order, "rounds": rounds, "extra": extra.decode()}, "failing_input": dict(fi, **extra_fi)})
     # cross-check of the translator: every allocation / descriptor acquisition OBSERVED in the library comes from a function the analysis treats as resource-touching
     acq = {"alloc", "fopen", "open", "socket"}
     nsites = 0
@@ -234,7 +278,9 @@ def check(run):
                          "From Coq Require Import String List Bool.\nFrom Snoopy Require Import Lib.Skel Lib.ResFlow Wrapper.Model Residue.Model.\n"
                          "From Gen Require Import Gen_Resid Gen_Calls.\nImport ListNotations.\nOpen Scope string_scope.\n"
                          "Eval vm_compute in (\"functions with an unbalanced path\", failing lib_fns ast_externals [\"snoopy_tsrm_atfork_child\"]).\n"
-                         "Eval vm_compute in (\"process-state mutators called\", filter (fun f => str_in f state_mutators) (external_calls ++ ast_externals)).\n")
+                         "Eval vm_compute in (\"process-state mutators called\", filter (fun f => str_in f state_mutators) (external_calls ++ ast_externals)).\n"
+                         "Eval vm_compute in (\"objects with static storage outside the verified inventory\", new_static_objects static_objects).\n"
+                         "Eval vm_compute in (\"socket() calls (function, arguments)\", socket_calls lib_fns).\n")
         run.notes.append("diagnosis of the broken obligation: " + diag[:1500])
     if not ok and not run.violations:
         run.violation("proof:%s" % failed, "proof", "proof obligation no longer checks: %s\n%s\n%s" % (failed, diag[:1500], log[-800:]), {"theorem": failed, "diagnosis": diag[:3000], "coq_log": log[-3000:]})
@@ -242,7 +288,7 @@ def check(run):
         run.notes.append("proof obligation broken as well: %s" % failed)
     ds, fl, out = registry_names(info)
     run.coverage.update({
-        "evaluations": nsamples, "distinct_nontrivial": len(distinct),
+        "evaluations": nsamples + nmt, "distinct_nontrivial": len(distinct),
         "rule": "per run: warm-up call, then 2..200 calls (execve/execv alternating, failed exec with ENOENT/EACCES/E2BIG returned to the caller, every 7th a simulated successful exec) under one "
                 "configuration; process state (fd table, environ checksum, cwd, umask, signal mask, handler table) and live allocations by call site compared before / at real-exec entry / "
                 "after return of every call after the warm-up; configurations: one per data source, filter (x5 argument shapes) and output (x4) of the registries, generated mixes of every option "
@@ -251,7 +297,7 @@ def check(run):
         "samples": [{"label": l, "variant": v, "fault": f, "config": ini.decode("latin-1")[:200]} for (l, ini, v, _, f, _, _, _, _) in (results[:2] + fresults[:2])],
         "distribution": {"runs": nruns, "sampling_points": nsamples, "fault_runs": faults_fired, "data_sources": len(ds), "filters": len(fl), "outputs": len(out),
                          "library_functions": info["functions"], "functions_with_skeleton": info["skeletons"], "external_calls": len(ext),
-                         "max_calls_in_a_run": max(j[3] for j in jobs) if jobs else 0, "acquisition_sites_observed_and_matched": nsites},
+                         "max_calls_in_a_run": max(j[3] for j in jobs) if jobs else 0, "acquisition_sites_observed_and_matched": nsites, "overlapping_thread_runs": len(mt_results), "overlapping_thread_samples": nmt},
         "traces_validated_against_impl": nsamples,
     })
     return run.finish(level="proof",
@@ -266,6 +312,15 @@ def replay(run, path):
     rep = json.load(open(path))
     run.snapshot()
     libs = build_both(run)
+    if "mt" in rep:
+        m = rep["mt"]
+        r = run_lifemt(run, libs["ts"], "replay", m["rounds"], m["order"], m.get("extra", "").encode())
+        bad = r["status"] != 0 or bool(r["errs"]) or any(al["lib"] for (_, _, al) in r["marks"])
+        print("overlapping threads, order %s, %d rounds: status %s" % (m["order"], m["rounds"], r["status"]))
+        for (label, n, al) in r["marks"]:
+            print("  after %s %d: live library blocks %s" % (label, n, {addr2line(libs["ts"], k): v for k, v in al["lib"].items()} or "none"))
+        run.cleanup()
+        return 1 if bad else 0
     if "config" not in rep:
         print("replay file has no configuration (proof-only violation): re-run ./check C16 quick")
         run.cleanup()
